@@ -276,6 +276,13 @@ class Assembler:
                     self.fired.add('5:drop-log-macro:' + name)
                     k = kc + 1
                     continue
+                if name == 'format' and self.u.get('opaque_format'):
+                    # transformation 8: a format! Verus cannot digest (alternate / Display of opaque types) becomes an
+                    # opaque String; contracts never mention string contents
+                    ed.replace(s.t[k0][1], s.t[kc][2], 'verif_opaque_string()')
+                    self.fired.add('8:format!-to-opaque-string')
+                    k = kc + 1
+                    continue
                 if name in ASSERT_MACROS and stmt_pos:
                     args = self.split_args(s, k + 2, kc)
                     counter[0] += 1
